@@ -94,6 +94,8 @@ def install():
     if repo not in sys.path[:1]:
         sys.path.insert(0, repo)
     warnings.simplefilter("ignore")
+    # coroutines of abandoned tasks are finalised after their loop is gone: not an error of the run
+    sys.unraisablehook = lambda *a, **k: None
     logging.getLogger("asyncio").setLevel(logging.CRITICAL)
 
     uuid.uuid4 = core.sim_uuid4
